@@ -26,15 +26,19 @@ SameVerdict(r) ==
 BumpVerdict(r) ==
   IF AtomBag(r.g) = AtomBag(r.h) /\ BondBag(r.g) = BondBag(r.h) THEN {"harness-bump-changed-nothing:" \o r.act}
   ELSE If(r.sg = r.sh, "collision:" \o r.act) \cup If(r.eq = 1, "equal-but-different:" \o r.act)
-\* exactly one marked centre inverted, everything else is the image under f
+\* exactly one marked centre inverted - or exactly one axis (allene / cumulene record) -, everything else is the image under f
 MirrorVerdict(r) ==
   LET Expected(k) == IF r.g.atoms[k].p = 2 THEN 2 ELSE ImageParity(r.g, r.f, k)
-      D == { k \in Nodes(r.g) : r.h.atoms[r.f[k]].p # Expected(k) } IN
-  IF ~(IsConstitutionIso(r.f, r.g, r.h) /\ CtPreserved(r.g, r.h, r.f) /\ Cardinality(D) = 1
-       /\ \A k \in D : r.g.atoms[k].p # 2 /\ r.h.atoms[r.f[k]].p # 2)
-  THEN {"harness-mirror-not-a-single-inversion"}
-  ELSE IF \E k \in D : AmbiguousCentre(r.g, Classes(r.g), k) THEN {}
-  ELSE If(r.sg = r.sh, "mirror-image-same-string") \cup If(r.eq = 1, "mirror-image-equal")
+      D == { k \in Nodes(r.g) : r.h.atoms[r.f[k]].p # Expected(k) }
+      F == { j \in 1..Len(r.g.ct) : ~\E q \in 1..Len(r.h.ct) : CtAgree(CtImage(r.g.ct[j], r.f), r.h.ct[q]) }
+      cls == Classes(r.g)
+      centreFlip == CtPreserved(r.g, r.h, r.f) /\ Cardinality(D) = 1 /\ \A k \in D : r.g.atoms[k].p # 2 /\ r.h.atoms[r.f[k]].p # 2
+      axisFlip == D = {} /\ Len(r.g.ct) = Len(r.h.ct) /\ Cardinality(F) = 1
+                  /\ \A j \in F : \E q \in 1..Len(r.h.ct) : {r.h.ct[q][1], r.h.ct[q][2]} = {r.f[r.g.ct[j][1]], r.f[r.g.ct[j][2]]}
+  IN IF ~(IsConstitutionIso(r.f, r.g, r.h) /\ (centreFlip \/ axisFlip)) THEN {"harness-mirror-not-a-single-inversion"}
+     ELSE IF centreFlip /\ \E k \in D : AmbiguousCentre(r.g, cls, k) THEN {}
+     ELSE IF axisFlip /\ ~InDomainC01(r.g) THEN {}
+     ELSE If(r.sg = r.sh, "mirror-image-same-string") \cup If(r.eq = 1, "mirror-image-equal")
 Verdict(r) == If((r.sg = r.sh) # (r.eq = 1), "eq-iff-same-string")
               \cup (CASE r.kind = "same" -> SameVerdict(r) [] r.kind = "bump" -> BumpVerdict(r) [] r.kind = "mirror" -> MirrorVerdict(r))
 OutOfDomain(r) == r.kind = "same" /\ Image(r) /\ ~InDomainC01(r.g)
